@@ -48,6 +48,24 @@ def one(ctx, data, meta=None, opts=pk.OPTS):
                 _ = d.html_map; _ = d.docx_reader.comments
         except Exception as e:
             ctx.fail('html_map raised', case, type(e).__name__, features=['raises:' + type(e).__name__]); good = False
+        if html and dup:
+            # every public read terminates also when the archive was saved, or the images written, before the first read
+            import os, tempfile, shutil
+            td = tempfile.mkdtemp(prefix='d2pv-c13-')
+            try:
+                with warnings.catch_warnings():
+                    warnings.simplefilter('ignore')
+                    with docx2python(io.BytesIO(data), html=html, duplicate_merged_cells=dup) as d:
+                        d.docx_reader.save(os.path.join(td, 'o.docx')); d.save_images(os.path.join(td, 'img'))
+                        for a in ('body', 'text', 'comments', 'core_properties', 'images', 'document_pars', 'footnotes_runs'):
+                            try: getattr(d, a)
+                            except Exception as e:
+                                ctx.fail('reading an attribute of a schema-valid package raised', {**case, 'attribute': a, 'after': 'save, save_images'}, type(e).__name__ + ': ' + str(e)[:80],
+                                         features=['raises:' + type(e).__name__]); good = False; break
+            except Exception as e:
+                ctx.fail('saving a schema-valid package raised', case, type(e).__name__ + ': ' + str(e)[:80], features=['raises:' + type(e).__name__]); good = False
+            finally:
+                shutil.rmtree(td, ignore_errors=True)
     if good: ctx.validated += 1
     if meta and len(meta['features']) >= 3: ctx.nontrivial(jhash(data.hex()))
     return good
